@@ -103,6 +103,7 @@ type trzszTransfer struct {
 	bufInitPhase     atomic.Bool
 	bufferSize       atomic.Int64
 	savedSteps       atomic.Int64
+	resumeRemainSize int64
 	transferConfig   transferConfig
 	logger           *traceLogger
 	createdFiles     []string
@@ -147,9 +148,10 @@ func newTransfer(writer io.Writer, stdinState *term.State, flushInTime bool, log
 			Newline:    "\n",
 			MaxBufSize: 10 * 1024 * 1024,
 		},
-		logger:      logger,
-		bgChan:      make(chan struct{}, 1),
-		bufInitChan: make(chan struct{}, 1),
+		logger:           logger,
+		bgChan:           make(chan struct{}, 1),
+		bufInitChan:      make(chan struct{}, 1),
+		resumeRemainSize: -1,
 	}
 	t.bufInitPhase.Store(true)
 	t.bufferSize.Store(10240)
@@ -1177,6 +1179,13 @@ func (t *trzszTransfer) recvFileSize(progress progressCallback) (int64, error) {
 	size, err := t.recvInteger("SIZE", false, t.getNewTimeout())
 	if err != nil {
 		return 0, err
+	}
+	// after resuming, the peer must send exactly what is missing beyond the offset kept on this side
+	if remain := t.resumeRemainSize; remain >= 0 {
+		t.resumeRemainSize = -1
+		if size != remain {
+			return 0, simpleTrzszError("Resume size check [%d] <> [%d]", size, remain)
+		}
 	}
 	if err := t.sendInteger("SUCC", size); err != nil {
 		return 0, err
